@@ -45,11 +45,10 @@ type Filter interface{}
 type dubboTransactionFilter struct{}
 
 func GetDubboTransactionFilter() filter.Filter {
-	if seataFilter == nil {
-		once.Do(func() {
-			seataFilter = &dubboTransactionFilter{}
-		})
-	}
+	// (no unsynchronised nil check in front of the Once: that read races with the initialisation)
+	once.Do(func() {
+		seataFilter = &dubboTransactionFilter{}
+	})
 	return seataFilter
 }
 
